@@ -109,6 +109,7 @@ def showStep : Step → String
   | .setTimeScale => "set_time_scale"
   | .startThread t => s!"start:{t}"
   | .controlRun => "control_run"
+  | .controlShutdown => "shutdown:control"
   | .joinThread t => s!"join:{t}"
   | .resetTimeScale => "reset_time_scale"
   | .finalSave => "save_state"
